@@ -176,6 +176,9 @@ Section Parse.
     else if String.eqb name "next" then ONext v
     else if String.eqb name "nextb" then ONextBack v
     else if String.eqb name "nth" then ONth v (A 2%nat)
+    else if String.eqb name "nthb" then ONthBack v (A 2%nat)
+    else if String.eqb name "count" then OCount v
+    else if String.eqb name "last" then OLast v
     else if String.eqb name "hint" then OHint v
     else if String.eqb name "asslice" then OAsSlice v
     else if String.eqb name "cloneit" then OCloneIter v w
